@@ -13,7 +13,7 @@ import (
 
 // C14: tokenisation is faithful to the text.
 
-const c14Alphabet = "01ab+<=([,\"\\. \t\n;"
+const c14Alphabet = "01an+<=([,\"\\. \t\n;-"
 
 type tok struct {
 	Kind     string
@@ -316,7 +316,7 @@ func init() {
 	core.Register(&core.Check{
 		ID:    "C14",
 		Level: "exploration",
-		Rule: "all strings over the 18-character alphabet {0 1 a b + < = ( [ , \" \\ . blank tab newline ;} up to length 5 (quick) / 6 (thorough), each lexed by the real Lexer under iteration fuel and by an independent tokenizer written from the Readme's token regexes; accepted strings are additionally checked for the span/gap/end-marker invariants and re-lexed under every single-gap layout variation (blank, tab, trailing comment); " +
+		Rule: "all strings over the 19-character alphabet {0 1 a n + - < = ( [ , \" \\ . blank tab newline ;} (n so that the \\n escape occurs, - so that operator runs of different characters occur) up to length 6 (quick) / 7 (thorough), each lexed by the real Lexer under iteration fuel and by an independent tokenizer written from the Readme's token regexes; accepted strings are additionally checked for the span/gap/end-marker invariants and re-lexed under every single-gap layout variation (blank, tab, trailing comment); " +
 			"distinct = distinct string; non-trivial = strings the lexer accepts with at least one real token",
 		Assumptions: []string{
 			"inputs on which the lexer exhausts its fuel (termination is C06's subject) and inputs the regexes do not settle (a digit run ending in '.') are skipped and counted",
@@ -332,9 +332,9 @@ func init() {
 
 func c14Run(w *core.W) {
 	w.NoCur = true
-	maxLen := 5
+	maxLen := 6
 	if w.Thorough() {
-		maxLen = 6
+		maxLen = 7
 	}
 	w.Family("strings")
 	alpha := c14Alphabet
